@@ -2,6 +2,7 @@ package raft
 
 import (
 	"errors"
+	"sync"
 	"time"
 )
 
@@ -31,6 +32,9 @@ type future[T Response] struct {
 
 	// The result of the future.
 	response Result[T]
+
+	// Serializes callers of Await.
+	mu sync.Mutex
 }
 
 func newFuture[T Response](timeout time.Duration) *future[T] {
@@ -41,6 +45,9 @@ func newFuture[T Response](timeout time.Duration) *future[T] {
 }
 
 func (f *future[T]) Await() Result[T] {
+	f.mu.Lock()
+	defer f.mu.Unlock()
+
 	if f.response != nil {
 		return f.response
 	}
